@@ -77,6 +77,8 @@ class Work:
             return o, _scrub(se.getvalue() + so.getvalue())
         except SystemExit:
             return None, _scrub(se.getvalue() + so.getvalue())
+        except Exception as e:      # mypy itself crashed on this source: an outcome, not a tool failure
+            return None, f"CRASH {type(e).__name__}: {e}"[:300]
         finally:
             os.chdir(cwd)
 
@@ -435,8 +437,8 @@ def write_witness(d: str, header: str = "# witness") -> None:
             fh.write(txt.replace("# witness", header, 1))
 
 
-def run_mypy(d: str, args: list[str]) -> str:
-    p = subprocess.run([PY, "-m", "mypy", "--no-error-summary", "--cache-dir", os.path.join(d, ".cache")] + args + ["pk"],
+def run_mypy(d: str, args: list[str], cache: str = ".cache") -> str:
+    p = subprocess.run([PY, "-m", "mypy", "--no-error-summary", "--cache-dir", os.path.join(d, cache)] + args + ["pk"],
                        cwd=d, env=repo_env({"MYPY_FORCE_COLOR": "0", "NO_COLOR": "1"}), capture_output=True, text=True, timeout=600)
     if p.returncode not in (0, 1, 2):
         raise ToolFailure("mypy crashed in the diagnostics search: " + (p.stdout + p.stderr)[-500:])
@@ -478,16 +480,22 @@ def diagnostics_equivalence(ctx: Ctx, tables: dict, only_flags: set[str] | None 
         for n in ("mypy.ini", "setup.cfg", "pyproject.toml"):
             if os.path.exists(os.path.join(d, n)):
                 os.remove(os.path.join(d, n))
-        res = {"cli": run_mypy(d, ["--config-file=", flag])}
+        # one cache per flag: every source of a flag yields the same options, so they may share it; sharing it
+        # between *flags* would let stale rendered messages through (options outside OPTIONS_AFFECTING_CACHE,
+        # property C09) and blur this comparison
+        cache = f".cache{i}"
+        res = {"cli": run_mypy(d, ["--config-file=", flag], cache)}
         for cfg, text in (("mypy.ini", ini_text([(dest, str(v))])), ("setup.cfg", ini_text([(dest, str(v))])),
                           ("pyproject.toml", toml_text([(dest, v)]))):
             with open(os.path.join(d, cfg), "w") as fh:
                 fh.write(text)
-            res[cfg] = run_mypy(d, [])          # discovered from the working directory
+            res[cfg] = run_mypy(d, [], cache)          # discovered from the working directory
             os.remove(os.path.join(d, cfg))
         if dest in inline_ok and flag not in ex["cliOnlySpellings"]:
             write_witness(d, f"# mypy: {flag[2:]}")
-            res["inline"] = run_mypy(d, ["--config-file="])
+            res["inline"] = run_mypy(d, ["--config-file="], cache + "i")
+            shutil.rmtree(os.path.join(d, cache + "i"), ignore_errors=True)
+        shutil.rmtree(os.path.join(d, cache), ignore_errors=True)
         return f, res
 
     # one flag after the other per directory (they share its cache); directories in parallel
@@ -508,6 +516,44 @@ def diagnostics_equivalence(ctx: Ctx, tables: dict, only_flags: set[str] | None 
     ctx.coverage["diagnostics_flags"] = len(flags)
 
 
+def precedence_diagnostics(ctx: Ctx) -> None:
+    """Conflicting pairs on *diagnostics*: `disallow_untyped_defs` said by two rungs of the documented ladder;
+    pk/a.py contains an unannotated function, so the error is there iff the higher rung says True."""
+    rungs = ["[mypy]", "cli", "pk.*", "*.a", "pk.a", "inline"]
+    k = "disallow_untyped_defs"
+    jobs = [(lo, hi, v) for lo in range(len(rungs)) for hi in range(lo + 1, len(rungs)) for v in (True, False)]
+    if ctx.quick():
+        jobs = ctx.rng.sample(jobs, 6)
+
+    def one(job):
+        n, (lo, hi, v) = job
+        d = os.path.join(ctx.tmp, f"pd{n}")
+        os.makedirs(os.path.join(d, "pk"), exist_ok=True)
+        say = {rungs[hi]: v, rungs[lo]: not v}
+        head = f"# mypy: {k.replace('_', '-')}={say['inline']}" if "inline" in say else "# witness"
+        for rel, txt in (("pk/__init__.py", ""), ("pk/a.py", head + "\ndef f(x):\n    return x\n"), ("pk/b.py", "y = 1\n")):
+            with open(os.path.join(d, rel), "w") as fh:
+                fh.write(txt)
+        text = ini_text([(k, str(say["[mypy]"]))] if "[mypy]" in say else [],
+                        [(p, [(k, str(say[p]))]) for p in ("pk.*", "*.a", "pk.a") if p in say])
+        with open(os.path.join(d, "mypy.ini"), "w") as fh:
+            fh.write(text)
+        cli = [{True: "--disallow-untyped-defs", False: "--allow-untyped-defs"}[say["cli"]]] if "cli" in say else []
+        out = run_mypy(d, cli, os.devnull)
+        return (lo, hi, v, text, cli, head, out)
+
+    with ThreadPoolExecutor(max_workers=6) as exr:
+        res = list(exr.map(one, enumerate(jobs)))
+    for lo, hi, v, text, cli, head, out in res:
+        ctx.case(("PREC-DIAG", rungs[lo], rungs[hi], v))
+        ctx.dist("precedence_diagnostics_pair", f"{rungs[hi]} over {rungs[lo]}")
+        got = "pk/a.py:2: error: Function is missing a type annotation" in out
+        if got != v:
+            report(ctx, {"class": "precedence", "higher": rungs[hi], "lower": rungs[lo], "option": k, "level": "diagnostics"},
+                   f"{k}: {rungs[hi]} says {v}, {rungs[lo]} says {not v}; pk/a.py is {'reported' if got else 'not reported'}",
+                   {"kind": "precedence-diagnostics", "config_text": text, "cli": cli, "header": head, "output": out})
+
+
 def findings_on_diagnostics(ctx: Ctx) -> None:
     """The two known defects shown on diagnostics (so that the finding is about behaviour, not only
     about an Options snapshot)."""
@@ -519,10 +565,10 @@ def findings_on_diagnostics(ctx: Ctx) -> None:
         with open(os.path.join(d, rel), "w") as fh:
             fh.write(txt)
     # (1) deprecated_calls_exclude
-    cli = run_mypy(d, ["--config-file=", "--enable-error-code", "deprecated", "--deprecated-calls-exclude", "pk.lib"])
+    cli = run_mypy(d, ["--config-file=", "--enable-error-code", "deprecated", "--deprecated-calls-exclude", "pk.lib"], ".c1")
     with open(os.path.join(d, "mypy.ini"), "w") as fh:
         fh.write("[mypy]\nenable_error_code = deprecated\ndeprecated_calls_exclude = pk.lib\n")
-    ini = run_mypy(d, [])
+    ini = run_mypy(d, [], ".c2")
     os.remove(os.path.join(d, "mypy.ini"))
     ctx.case(("FIND", "deprecated_calls_exclude"))
     if cli != ini:
@@ -534,10 +580,10 @@ def findings_on_diagnostics(ctx: Ctx) -> None:
     # (2) per-module strict
     with open(os.path.join(d, "mypy.ini"), "w") as fh:
         fh.write("[mypy]\n[mypy-pk.a]\nstrict = True\n")
-    strict = run_mypy(d, [])
+    strict = run_mypy(d, [], ".c3")
     with open(os.path.join(d, "mypy.ini"), "w") as fh:
         fh.write("[mypy]\n[mypy-pk.a]\ndisallow_untyped_defs = True\n")
-    single = run_mypy(d, [])
+    single = run_mypy(d, [], ".c4")
     os.remove(os.path.join(d, "mypy.ini"))
     ctx.case(("FIND", "per-module strict"))
     if "pk/b.py" in strict and "pk/b.py" not in single:
